@@ -2,8 +2,18 @@ use svgdx::Result;
 
 use svgdx::cli::{get_config, run};
 
-fn main() -> Result<()> {
+fn try_main() -> Result<()> {
     run(get_config()?)?;
 
     Ok(())
+}
+
+fn main() {
+    // Report an error through its `Display` form: returning it from main() would print the
+    // `Debug` form, which for a document with several failing elements lists them in
+    // hash-map order, i.e. differently from one run to the next.
+    if let Err(e) = try_main() {
+        eprintln!("Error: {e}");
+        std::process::exit(1);
+    }
 }
